@@ -23,7 +23,7 @@ RULE = (
     "second cycle; non-expressible content must make to_g2o raise - a file that is written must load and compare equal. Non-trivial = a landmark "
     "edge with offset, a w<0 quaternion, a number outside [1e-6,1e6], or >= 2 cycles."
 )
-BUDGET = {"quick": 16 * 300, "thorough": 16 * 8000}
+BUDGET = {"quick": 16 * 1500, "thorough": 16 * 8000}
 TOLERANCES = {
     "numbers": "bit-identical except SE2 angles (exact congruence within 8*eps*(|theta|+pi)) and SE3 measurement quaternions (+-q/|q| within 4 ulp)",
     "chi2": "1e-12*A + propagation of 1e-14*(1+S) error changes (skipped when not finite)",
